@@ -59,6 +59,7 @@ type Case struct {
 	// with letters until the redacted text of the URL is exactly that long
 	// (texts around 256, 512, 1024 and 4096 bytes: sizes of fixed buffers).
 	PadTo    int      `json:"pad_to,omitempty"`
+	OpIdx    int      `json:"op_idx,omitempty"` // selects the Op of the top-level *url.Error (see op)
 	U1       UserInfo `json:"u1"`
 	U2       UserInfo `json:"u2"`
 	ErrShape int      `json:"err_shape"` // 0 nil, 1 *url.Error, 2 wrapped *url.Error, 3 plain error, 4 *url.Error with URL=="", 5 errors.WithDeferred(*url.Error, x), 6 errors.Pair{x, *url.Error}, 7 errors.Annotate(*url.Error)
@@ -111,6 +112,12 @@ func (c Case) base() (*url.URL, bool) {
 		u.Path, u.RawPath = u.Path+strings.Repeat("a", c.PadTo-cur), ""
 	}
 	return u, true
+}
+
+// op is the Op of the top-level *url.Error: what net/http, url.Parse and other
+// callers put there.
+func (c Case) op() string {
+	return []string{"Get", "parse", "Post", "", "Head", "read", "Parse", "dial"}[((c.OpIdx%8)+8)%8]
 }
 
 func (c Case) unpadded() (*url.URL, bool) {
@@ -194,7 +201,7 @@ func checkRedact(c Case) error {
 	for i, ne := range nested {
 		nestedSnap[i] = *ne
 	}
-	ue := &url.Error{Op: "Get", URL: u1.String(), Err: inner}
+	ue := &url.Error{Op: c.op(), URL: u1.String(), Err: inner}
 	var e error
 	switch c.ErrShape {
 	case 1:
@@ -341,6 +348,7 @@ var redactProp = vp.Register(vp.Prop[Case]{
 		if rapid.IntRange(0, 2).Draw(t, "nested") == 0 {
 			c.Nest = rapid.SliceOfN(rapid.SampledFrom([]string{"url", "url", "wrap", "join", "typednil"}), 1, 3).Draw(t, "nest")
 		}
+		c.OpIdx = rapid.SampledFrom([]int{0, 0, 1, 1, 2, 3, 4, 5, 6, 7}).Draw(t, "op")
 		if rapid.IntRange(0, 5).Draw(t, "pad") == 0 {
 			c.PadTo = rapid.SampledFrom([]int{256, 256, 512, 1024, 4096, 128, 64}).Draw(t, "padbase") + rapid.IntRange(-4, 4).Draw(t, "paddelta")
 		}
